@@ -27,3 +27,106 @@ def C03_H_root_link_depth(req, imp):
         return False
     # some starting point is a link that resolves to a directory: d.<name>.1x...
     return any(("=" in w) and w.split("=", 1)[1].startswith("d.-.1") for w in roots)
+
+
+def _unhex(h):
+    return b"" if h in ("-", "") else bytes.fromhex(h)
+
+
+def _glob_pattern(req):
+    """pattern text of a glob-* request, or None"""
+    parts = req.split(" ")
+    try:
+        if parts[0] == "glob-rx":
+            return _unhex(parts[1]).decode("utf-8", "replace")
+        if parts[0] == "glob-match":
+            return _unhex(parts[2]).decode("utf-8", "replace")
+        if parts[0] == "glob-e2e":
+            return _unhex(parts[3]).decode("utf-8", "replace")
+    except (ValueError, IndexError):
+        return None
+    return None
+
+
+def _posix_bracket_bodies(p, quoting=True):
+    """bodies (between '[' and the closing ']') of the bracket expressions of a glob, read the
+    POSIX way: backslash quotes, ']' first is a member, [:class:] is skipped as a unit
+    (quoting=False: inside brackets a backslash is an ordinary character, as the code reads it)"""
+    out = []
+    i, n = 0, len(p)
+    while i < n:
+        c = p[i]
+        if c == "\\":
+            i += 2
+            continue
+        if c != "[":
+            i += 1
+            continue
+        j = i + 1
+        if j < n and p[j] in "!^":
+            j += 1
+        if j < n and p[j] == "]":
+            j += 1
+        closed = False
+        while j < n:
+            if p[j] == "\\" and quoting:
+                j += 2
+                continue
+            if p[j] == "[" and j + 1 < n and p[j + 1] in ":.=":
+                k = p.find(p[j + 1] + "]", j + 2)
+                if k < 0:
+                    j += 1
+                    continue
+                j = k + 2
+                continue
+            if p[j] == "]":
+                closed = True
+                break
+            j += 1
+        if closed:
+            out.append(p[i + 1:j])
+            i = j + 1
+        else:
+            i += 1
+    return out
+
+
+def C12_backslash_in_bracket(req, imp):
+    """a backslash inside a bracket expression is passed to the regex engine verbatim, where it is
+    an ordinary set member instead of quoting the next character (pinned by the unit test
+    glob::tests::complex_brackets)"""
+    p = _glob_pattern(req)
+    if p is None or imp == "panic":
+        return False
+    return any("\\" in b for b in _posix_bracket_bodies(p)) or any("\\" in b for b in _posix_bracket_bodies(p, quoting=False))
+
+
+def C12_open_bracket_member(req, imp):
+    """a '[' that is a member of a bracket expression makes the scanner swallow the next
+    character (intended for [: [. [=), so the bracket expression is cut differently"""
+    p = _glob_pattern(req)
+    if p is None or imp == "panic":
+        return False
+    for b in _posix_bracket_bodies(p):
+        body = b[1:] if b[:1] in "!^" else b
+        i = 0
+        while i < len(body):
+            if body[i] == "\\":
+                i += 2
+                continue
+            if body[i] == "[":
+                if i + 1 < len(body) and body[i + 1] in ":.=" and body.find(body[i + 1] + "]", i + 2) >= 0:
+                    i = body.find(body[i + 1] + "]", i + 2) + 2
+                    continue
+                return True
+            i += 1
+    return False
+
+
+def C12_punct_class_symbols(req, imp):
+    """Oniguruma's [:punct:] (UTF-8) does not contain the nine ASCII symbols $+<=>^`|~ that the
+    POSIX class contains"""
+    p = _glob_pattern(req)
+    if p is None or imp == "panic":
+        return False
+    return "[:punct:]" in p
